@@ -12,6 +12,8 @@ import Genq.Model.Conv
 import Genq.Model.Types
 import Genq.Model.Collect
 import Genq.Model.Vars
+import Genq.Model.TypeMap
+import Genq.Model.Imports
 open Lean
 namespace Genq.Driver
 
@@ -403,6 +405,59 @@ def opCollect (op : String) (j : Json) : Except String Json := do
                        ("spec", Json.arr ((Collect.specKeysList lookup obj sel).map Json.str).toArray)]
   | _ => throw s!"unknown op {op}"
 
+partial def parseTSel (j : Json) : Except String TypeMap.Sel := do
+  match (← getStr j "k") with
+  | "f" => return .field (← getStr j "a") (← getStr j "n") (← (← getArr j "s").toList.mapM parseTSel)
+  | "i" => return .inline (← getStr j "c") (← (← getArr j "s").toList.mapM parseTSel)
+  | "s" => return .spread (← getStr j "n")
+  | k => throw s!"sel kind {k}"
+
+def parseNeed (j : Json) : Except String TypeMap.Need := do
+  return ⟨← getStr j "gql", ← (← getArr j "sel").toList.mapM parseTSel⟩
+
+def outStr : TypeMap.Out → String
+  | .absent => "absent" | .reuse => "reuse" | .conflict => "conflict" | .inserted => "inserted" | .written => "written"
+
+def tmRun : TypeMap.TMap → List TypeMap.Req → List String
+  | _, [] => []
+  | m, r :: rs =>
+    match TypeMap.step m r with
+    | (_, .conflict) => ["conflict"]
+    | (m', o) => outStr o :: tmRun m' rs
+
+def opTypeMap (op : String) (j : Json) : Except String Json := do
+  match op with
+  | "tm.match" =>
+    let a ← (← getArr j "a").toList.mapM parseTSel
+    let b ← (← getArr j "b").toList.mapM parseTSel
+    return Json.mkObj [("out", Json.bool (TypeMap.selsMatch a b))]
+  | "tm.run" =>
+    let reqs ← (← getArr j "reqs").toList.mapM fun r => do
+      let need ← parseNeed r
+      let n ← getStr r "name"
+      match (← getStr r "kind") with
+      | "get" => pure (TypeMap.Req.get n need)
+      | "add" => pure (TypeMap.Req.add n need)
+      | "write" => pure (TypeMap.Req.write n need)
+      | "peek" => pure (TypeMap.Req.peek n need)
+      | k => throw s!"req kind {k}"
+    return Json.mkObj [("out", Json.arr ((tmRun [] reqs).map Json.str).toArray)]
+  | _ => throw s!"unknown op {op}"
+
+def opImports (op : String) (j : Json) : Except String Json := do
+  match op with
+  | "imports.refs" =>
+    let own ← getStr j "own"
+    let names ← (← getArr j "names").toList.mapM fun n => n.getStr?
+    let (st, outs) := Imports.refs own.toList Imports.St.empty (names.map String.toList)
+    let outJ := outs.map fun o => match o with
+      | .ok t => Json.str (String.ofList t)
+      | .err => Json.str "error"
+      | .stuck => Json.str "stuck"
+    let imps := st.imports.map fun p => Json.arr #[Json.str (String.ofList p.1), Json.str (String.ofList p.2)]
+    return Json.mkObj [("out", Json.arr outJ.toArray), ("imports", Json.arr imps.toArray)]
+  | _ => throw s!"unknown op {op}"
+
 def opVars (op : String) (j : Json) : Except String Json := do
   match op with
   | "vars.keys" =>
@@ -430,6 +485,8 @@ def dispatch (j : Json) : Json :=
     else if op.startsWith "types." then opTypes op j
     else if op.startsWith "collect." then opCollect op j
     else if op.startsWith "vars." then opVars op j
+    else if op.startsWith "tm." then opTypeMap op j
+    else if op.startsWith "imports." then opImports op j
     else throw s!"unknown op {op}"
   let idf := match j.getObjVal? "id" with | .ok v => [("id", v)] | .error _ => []
   match r with
